@@ -787,6 +787,10 @@ void GetResidualMatrix(matrix* mx, PCAMODEL* model, size_t pc, matrix *rmx)
   if(pc > rmx->col)
     pc = rmx->col;    /* set the value to the max value */
 
+  /* ... and never more than the model holds */
+  if(pc > model->scores->col)
+    pc = model->scores->col;
+
   for(k = 0; k < pc; k++){
     for(i = 0; i < rmx->row; i++){
       for(j = 0; j < rmx->col; j++){
